@@ -385,8 +385,6 @@ class Analysis:
             if all(n.split(".")[-1] in ("BaseExceptionGroup",) for n in names):
                 return "maybe"
             return "maybe"
-        # a handler for a subclass of the raised class may catch it
-        for n in names:
-            if tag in self.ancestors(n) or tag.split(".")[-1] in {a.split(".")[-1] for a in self.ancestors(n)}:
-                return "maybe"
+        # tags other than Exception* come from `raise X(...)` and are exact classes: a handler for a
+        # subclass of X does not catch them
         return ""
